@@ -863,6 +863,456 @@ theorem parse_written_gen (es : List (Str × Str × Str)) : ∀ (seps : List Str
         obtain ⟨a, ha⟩ := serializeKey_ends_nl e.1 e.2.1 e.2.2
         exact ⟨pre ++ sep ++ a, by rw [ha, List.append_assoc (pre ++ sep)]⟩
 
+/-! ### J. the declarative reading of a keyring text: `[Key]` sections -/
+
+def Tok.nameV : Tok → Option Str | .name v => some v | _ => none
+def Tok.pkV : Tok → Option Str | .pk v => some v | _ => none
+def Tok.skV : Tok → Option Str | .sk v => some v | _ => none
+
+/-- split a token list at the `key` tokens: (tokens before the first `key`, the token group after each `key`) -/
+def splitAtKeys : List Tok → List Tok × List (List Tok)
+  | [] => ([], [])
+  | .key :: ts => ([], (splitAtKeys ts).1 :: (splitAtKeys ts).2)
+  | t :: ts => (t :: (splitAtKeys ts).1, (splitAtKeys ts).2)
+
+/-- the `[Key]` sections of a token list: `none` if a `bad` token occurs or a non-skip token precedes the first
+    `key`; otherwise the token groups after each `key`, skips removed -/
+def sectionsOf (toks : List Tok) : Option (List (List Tok)) :=
+  if toks.contains .bad then none
+  else if (splitAtKeys toks).1.all (· == .skip) then some ((splitAtKeys toks).2.map (·.filter (· != .skip)))
+  else none
+
+/-- `o` is the value already present (if any), `l` the further values met: at most one value in total, a new
+    value must satisfy `ok` -/
+def pend (o : Option Str) (l : List Str) (ok : Str → Bool) : Option (Option Str) :=
+  match o, l with
+  | o, [] => some o
+  | none, [x] => if ok x then some (some x) else none
+  | _, _ => none
+
+/-- no value or exactly one valid value -/
+def atMostOne (l : List Str) (ok : Str → Bool) : Option (Option Str) := pend none l ok
+
+/-- the entry a section denotes: exactly one Name (valid), exactly one PublicKey (decodes to 36 bytes), at most
+    one PrivateKey (decodes to 84 bytes), in any order -/
+def entryOf (g : List Tok) : Option Key :=
+  match atMostOne (g.filterMap Tok.nameV) validParsedName, atMostOne (g.filterMap Tok.pkV) encodedPkOk,
+      atMostOne (g.filterMap Tok.skV) encodedSkOk with
+  | some (some n), some (some p), some s => some ⟨n, p, s⟩
+  | _, _, _ => none
+
+theorem pend_cons_none (v : Str) (l : List Str) (ok : Str → Bool) :
+    pend none (v :: l) ok = if ok v then pend (some v) l ok else none := by
+  cases l with
+  | nil => simp [pend]
+  | cons x l => simp [pend]
+
+theorem pend_cons_some (x v : Str) (l : List Str) (ok : Str → Bool) : pend (some x) (v :: l) ok = none := by
+  simp [pend]
+
+def KeyFree (g : List Tok) : Prop := Tok.key ∉ g
+
+theorem fm_skip (g : List Tok) :
+    (Tok.skip :: g).filterMap Tok.nameV = g.filterMap Tok.nameV ∧
+    (Tok.skip :: g).filterMap Tok.pkV = g.filterMap Tok.pkV ∧
+    (Tok.skip :: g).filterMap Tok.skV = g.filterMap Tok.skV := ⟨rfl, rfl, rfl⟩
+
+theorem fm_name (v : Str) (g : List Tok) :
+    (Tok.name v :: g).filterMap Tok.nameV = v :: g.filterMap Tok.nameV ∧
+    (Tok.name v :: g).filterMap Tok.pkV = g.filterMap Tok.pkV ∧
+    (Tok.name v :: g).filterMap Tok.skV = g.filterMap Tok.skV := ⟨rfl, rfl, rfl⟩
+
+theorem fm_pk (v : Str) (g : List Tok) :
+    (Tok.pk v :: g).filterMap Tok.nameV = g.filterMap Tok.nameV ∧
+    (Tok.pk v :: g).filterMap Tok.pkV = v :: g.filterMap Tok.pkV ∧
+    (Tok.pk v :: g).filterMap Tok.skV = g.filterMap Tok.skV := ⟨rfl, rfl, rfl⟩
+
+theorem fm_sk (v : Str) (g : List Tok) :
+    (Tok.sk v :: g).filterMap Tok.nameV = g.filterMap Tok.nameV ∧
+    (Tok.sk v :: g).filterMap Tok.pkV = g.filterMap Tok.pkV ∧
+    (Tok.sk v :: g).filterMap Tok.skV = v :: g.filterMap Tok.skV := ⟨rfl, rfl, rfl⟩
+
+/-- inside a section (no `key` token), from a state with `found = true` -/
+theorem parseToks_group (g : List Tok) : ∀ (st st' : PSt), KeyFree g → st.found = true →
+    (parseToks st g = some st' ↔
+      Tok.bad ∉ g ∧ st'.keys = st.keys ∧ st'.found = true ∧
+      pend st.name (g.filterMap Tok.nameV) validParsedName = some st'.name ∧
+      pend st.pk (g.filterMap Tok.pkV) encodedPkOk = some st'.pk ∧
+      pend st.sk (g.filterMap Tok.skV) encodedSkOk = some st'.sk) := by
+  induction g with
+  | nil =>
+    intro st st' _ hf
+    simp only [parseToks, Option.some.injEq, List.filterMap_nil, pend, List.not_mem_nil, not_false_eq_true, true_and]
+    constructor
+    · rintro rfl; exact ⟨rfl, hf, rfl, rfl, rfl⟩
+    · rintro ⟨h1, h2, h3, h4, h5⟩
+      cases st; cases st'; simp_all
+  | cons t g ih =>
+    intro st st' hk hf
+    have hk' : KeyFree g := fun h => hk (List.mem_cons_of_mem _ h)
+    cases t with
+    | key => exact absurd (List.mem_cons_self ..) hk
+    | bad => simp [parseToks, stepTok]
+    | skip =>
+      simp only [parseToks, stepTok]
+      rw [ih st st' hk' hf]
+      simp [fm_skip]
+    | name v =>
+      simp only [parseToks, stepTok, hf, Bool.not_true, Bool.false_or]
+      cases hn : st.name with
+      | some x => simp [fm_name, pend_cons_some]
+      | none =>
+        by_cases hv : validParsedName v = true
+        · simp only [Option.isSome_none, Bool.false_eq_true, if_false, hv, if_true]
+          rw [ih _ st' hk' rfl]
+          simp [fm_name, pend_cons_none, hv]
+        · simp [fm_name, pend_cons_none, hv]
+    | pk v =>
+      simp only [parseToks, stepTok, hf, Bool.not_true, Bool.false_or]
+      cases hn : st.pk with
+      | some x => simp [fm_pk, pend_cons_some]
+      | none =>
+        by_cases hv : encodedPkOk v = true
+        · simp only [Option.isSome_none, Bool.false_eq_true, if_false, hv, if_true]
+          rw [ih _ st' hk' rfl]
+          simp [fm_pk, pend_cons_none, hv]
+        · simp [fm_pk, pend_cons_none, hv]
+    | sk v =>
+      simp only [parseToks, stepTok, hf, Bool.not_true, Bool.false_or]
+      cases hn : st.sk with
+      | some x => simp [fm_sk, pend_cons_some]
+      | none =>
+        by_cases hv : encodedSkOk v = true
+        · simp only [Option.isSome_none, Bool.false_eq_true, if_false, hv, if_true]
+          rw [ih _ st' hk' rfl]
+          simp [fm_sk, pend_cons_none, hv]
+        · simp [fm_sk, pend_cons_none, hv]
+
+theorem entryOf_some_iff (g : List Tok) (k : Key) :
+    entryOf g = some k ↔
+      atMostOne (g.filterMap Tok.nameV) validParsedName = some (some k.name) ∧
+      atMostOne (g.filterMap Tok.pkV) encodedPkOk = some (some k.pk) ∧
+      atMostOne (g.filterMap Tok.skV) encodedSkOk = some k.sk := by
+  unfold entryOf
+  constructor
+  · intro h
+    split at h
+    · rename_i n p s h1 h2 h3
+      cases h
+      exact ⟨h1, h2, h3⟩
+    · exact absurd h (by simp)
+  · rintro ⟨h1, h2, h3⟩
+    rw [h1, h2, h3]
+
+/-- a clean state: inside a section list, just after a `[Key]` line -/
+def Clean (s : PSt) : Prop := s.found = true ∧ s.name = none ∧ s.pk = none ∧ s.sk = none
+
+/-- one whole section from a clean state, closed by `addKey` -/
+theorem group_close (g : List Tok) (s s2 : PSt) (hk : KeyFree g) (hc : Clean s) :
+    (∃ s1, parseToks s g = some s1 ∧ addKey s1 = some s2) ↔
+      Tok.bad ∉ g ∧ ∃ k, entryOf g = some k ∧ (∀ k' ∈ s.keys, k'.name ≠ k.name ∧ k'.pk ≠ k.pk) ∧
+        s2 = { s with keys := s.keys ++ [k] } := by
+  obtain ⟨hf, hn, hp, hs⟩ := hc
+  constructor
+  · rintro ⟨s1, h1, h2⟩
+    rw [parseToks_group g s s1 hk hf, hn, hp, hs] at h1
+    obtain ⟨hb, hkeys, hf1, e1, e2, e3⟩ := h1
+    obtain ⟨n, p, en, ep, hfresh, rfl⟩ := addKey_some h2
+    refine ⟨hb, ⟨n, p, s1.sk⟩, ?_, ?_, ?_⟩
+    · rw [entryOf_some_iff]
+      exact ⟨by rw [atMostOne, e1, en], by rw [atMostOne, e2, ep], by rw [atMostOne, e3]⟩
+    · rw [← hkeys]; exact hfresh
+    · cases s; cases s1; simp_all
+  · rintro ⟨hb, k, hk', hfresh, rfl⟩
+    rw [entryOf_some_iff] at hk'
+    refine ⟨{ s with name := some k.name, pk := some k.pk, sk := k.sk }, ?_, ?_⟩
+    · rw [parseToks_group g s _ hk hf, hn, hp, hs]
+      exact ⟨hb, rfl, hf, hk'.1, hk'.2.1, hk'.2.2⟩
+    · have := addKey_of (st := { s with name := some k.name, pk := some k.pk, sk := k.sk }) (n := k.name) (p := k.pk)
+        rfl rfl hfresh
+      rw [this]
+      cases s; cases k; simp_all
+
+theorem mapM_cons_some_iff {α β} (f : α → Option β) (a : α) (as : List α) (r : List β) :
+    (a :: as).mapM f = some r ↔ ∃ b bs, f a = some b ∧ as.mapM f = some bs ∧ r = b :: bs := by
+  rw [List.mapM_cons]
+  cases f a with
+  | none => simp
+  | some b =>
+    cases as.mapM f with
+    | none => simp
+    | some bs => simp [eq_comm]
+
+theorem mapM_nil_some_iff {α β} (f : α → Option β) (r : List β) :
+    ([] : List α).mapM f = some r ↔ r = [] := by
+  simp [eq_comm]
+
+/-- the parser's walk over the sections: each is opened by a `key` token -/
+def runGroups (st : PSt) : List (List Tok) → Option PSt
+  | [] => some st
+  | g :: gs => (stepTok st .key).bind fun s => (parseToks s g).bind fun s' => runGroups s' gs
+
+theorem parseToks_split (toks : List Tok) : ∀ st,
+    parseToks st toks = (parseToks st (splitAtKeys toks).1).bind (runGroups · (splitAtKeys toks).2) := by
+  induction toks with
+  | nil => intro st; rfl
+  | cons t ts ih =>
+    intro st
+    cases t
+    case key =>
+      simp only [splitAtKeys, parseToks, runGroups, Option.bind_some]
+      cases stepTok st .key with
+      | none => rfl
+      | some s => exact ih s
+    all_goals
+      simp only [splitAtKeys, parseToks]
+      cases stepTok st _ with
+      | none => rfl
+      | some s => exact ih s
+
+theorem splitAtKeys_keyFree (toks : List Tok) :
+    KeyFree (splitAtKeys toks).1 ∧ ∀ g ∈ (splitAtKeys toks).2, KeyFree g := by
+  induction toks with
+  | nil => simp [splitAtKeys, KeyFree]
+  | cons t ts ih =>
+    cases t
+    case key =>
+      simp only [splitAtKeys, List.mem_cons]
+      refine ⟨by simp [KeyFree], ?_⟩
+      rintro g (rfl | hg)
+      · exact ih.1
+      · exact ih.2 g hg
+    all_goals
+      simp only [splitAtKeys]
+      refine ⟨?_, ih.2⟩
+      have := ih.1
+      simp only [KeyFree, List.mem_cons, not_or] at this ⊢
+      exact ⟨by simp, this⟩
+
+theorem splitAtKeys_bad (toks : List Tok) :
+    Tok.bad ∈ toks ↔ Tok.bad ∈ (splitAtKeys toks).1 ∨ ∃ g ∈ (splitAtKeys toks).2, Tok.bad ∈ g := by
+  induction toks with
+  | nil => simp [splitAtKeys]
+  | cons t ts ih =>
+    cases t
+    case key =>
+      simp only [splitAtKeys, List.mem_cons, List.not_mem_nil, false_or, exists_eq_or_imp, reduceCtorEq]
+      exact ih
+    case bad => simp [splitAtKeys]
+    all_goals
+      simp only [splitAtKeys, List.mem_cons, reduceCtorEq, false_or]
+      exact ih
+
+/-- before the first `[Key]` line only comments and blank lines are accepted, and they change nothing -/
+theorem parseToks_notFound (g : List Tok) : ∀ (st st1 : PSt), KeyFree g → st.found = false →
+    (parseToks st g = some st1 ↔ g.all (· == .skip) = true ∧ st1 = st) := by
+  induction g with
+  | nil => intro st st1 _ _; simp [parseToks, eq_comm]
+  | cons t g ih =>
+    intro st st1 hk hf
+    have hk' : KeyFree g := fun h => hk (List.mem_cons_of_mem _ h)
+    cases t
+    case key => exact absurd (List.mem_cons_self ..) hk
+    case skip =>
+      simp only [parseToks, stepTok, List.all_cons, beq_self_eq_true, Bool.true_and]
+      exact ih st st1 hk' hf
+    all_goals simp [parseToks, stepTok, hf]
+
+theorem nodup_snoc_map {α β} (f : α → β) (K : List α) (k : α) :
+    ((K ++ [k]).map f).Nodup ↔ (K.map f).Nodup ∧ ∀ k' ∈ K, f k' ≠ f k := by
+  simp only [List.map_append, List.map_cons, List.map_nil, List.nodup_append, List.mem_map, List.mem_singleton]
+  constructor
+  · rintro ⟨h1, _, h3⟩
+    exact ⟨h1, fun k' hk' => h3 _ ⟨k', hk', rfl⟩ _ rfl⟩
+  · rintro ⟨h1, h2⟩
+    refine ⟨h1, by simp, ?_⟩
+    rintro a ⟨k', hk', rfl⟩ b rfl
+    exact h2 k' hk'
+
+theorem fresh_of_nodup_map {α β} (f : α → β) (K : List α) (k : α) (rest : List α)
+    (h : ((K ++ k :: rest).map f).Nodup) : ∀ k' ∈ K, f k' ≠ f k := by
+  simp only [List.map_append, List.map_cons, List.nodup_append] at h
+  intro k' hk'
+  exact h.2.2 _ (List.mem_map.mpr ⟨k', hk', rfl⟩) _ (List.mem_cons_self ..)
+
+theorem found_of_parseToks_group {g : List Tok} {s s1 : PSt} (hk : KeyFree g) (hf : s.found = true)
+    (h : parseToks s g = some s1) : s1.found = true :=
+  ((parseToks_group g s s1 hk hf).mp h).2.2.1
+
+/-- the sections after the first `[Key]` line, from a clean state -/
+theorem runGroups_clean (gs : List (List Tok)) : ∀ (g : List Tok) (s : PSt) (ks : List Key),
+    KeyFree g → (∀ g' ∈ gs, KeyFree g') → Clean s →
+    (s.keys.map (·.name)).Nodup → (s.keys.map (·.pk)).Nodup →
+    ((∃ stf st', (parseToks s g).bind (runGroups · gs) = some stf ∧ stf.found = true ∧
+        addKey stf = some st' ∧ st'.keys = ks) ↔
+      (∀ g' ∈ g :: gs, Tok.bad ∉ g') ∧ ∃ new, (g :: gs).mapM entryOf = some new ∧ ks = s.keys ++ new ∧
+        (ks.map (·.name)).Nodup ∧ (ks.map (·.pk)).Nodup) := by
+  induction gs with
+  | nil =>
+    intro g s ks hk _ hc hN hP
+    constructor
+    · rintro ⟨stf, st', h1, _, h3, h4⟩
+      simp only [runGroups, Option.bind_eq_some_iff, Option.some.injEq, exists_eq_right] at h1
+      obtain ⟨hb, k, hk1, hfr, rfl⟩ := (group_close g s st' hk hc).mp ⟨stf, h1, h3⟩
+      subst h4
+      refine ⟨by simpa using hb, [k], ?_, rfl, ?_, ?_⟩
+      · rw [mapM_cons_some_iff]; exact ⟨k, [], hk1, rfl, rfl⟩
+      · exact (nodup_snoc_map _ _ _).mpr ⟨hN, fun k' hk' => (hfr k' hk').1⟩
+      · exact (nodup_snoc_map _ _ _).mpr ⟨hP, fun k' hk' => (hfr k' hk').2⟩
+    · rintro ⟨hb, new, hm, rfl, hN', hP'⟩
+      rw [mapM_cons_some_iff] at hm
+      obtain ⟨k, bs, hk1, hbs, rfl⟩ := hm
+      rw [mapM_nil_some_iff] at hbs
+      subst hbs
+      obtain ⟨s1, h1, h2⟩ := (group_close g s { s with keys := s.keys ++ [k] } hk hc).mpr
+        ⟨hb g (List.mem_cons_self ..), k, hk1,
+          fun k' hk' => ⟨fresh_of_nodup_map (·.name) _ k [] hN' k' hk', fresh_of_nodup_map (·.pk) _ k [] hP' k' hk'⟩, rfl⟩
+      exact ⟨s1, _, by simp [runGroups, h1], found_of_parseToks_group hk hc.1 h1, h2, rfl⟩
+  | cons g' gs ih =>
+    intro g s ks hk hks hc hN hP
+    have hk' : KeyFree g' := hks g' (List.mem_cons_self ..)
+    have hks' : ∀ x ∈ gs, KeyFree x := fun x hx => hks x (List.mem_cons_of_mem _ hx)
+    constructor
+    · rintro ⟨stf, st', h1, h2, h3, h4⟩
+      simp only [runGroups, Option.bind_eq_some_iff] at h1
+      obtain ⟨s1, e1, s2, e2, e3⟩ := h1
+      have hf1 := found_of_parseToks_group hk hc.1 e1
+      simp only [stepTok, hf1, if_true] at e2
+      obtain ⟨hb, k, hk1, hfr, rfl⟩ := (group_close g s s2 hk hc).mp ⟨s1, e1, e2⟩
+      have hN2 := (nodup_snoc_map (·.name) s.keys k).mpr ⟨hN, fun k' hk' => (hfr k' hk').1⟩
+      have hP2 := (nodup_snoc_map (·.pk) s.keys k).mpr ⟨hP, fun k' hk' => (hfr k' hk').2⟩
+      obtain ⟨hb', new', hm', hks2, hN', hP'⟩ := (ih g' { s with keys := s.keys ++ [k] } ks hk' hks'
+        ⟨hc.1, hc.2.1, hc.2.2.1, hc.2.2.2⟩ hN2 hP2).mp ⟨stf, st', by simpa [Option.bind_eq_some_iff] using e3, h2, h3, h4⟩
+      refine ⟨?_, k :: new', ?_, ?_, hN', hP'⟩
+      · intro x hx
+        rcases List.mem_cons.mp hx with rfl | hx
+        · exact hb
+        · exact hb' x hx
+      · rw [mapM_cons_some_iff]; exact ⟨k, new', hk1, hm', rfl⟩
+      · rw [hks2]; simp
+    · rintro ⟨hb, new, hm, rfl, hN', hP'⟩
+      rw [mapM_cons_some_iff] at hm
+      obtain ⟨k, new', hk1, hm', rfl⟩ := hm
+      have hfr : ∀ k' ∈ s.keys, k'.name ≠ k.name ∧ k'.pk ≠ k.pk :=
+        fun k' hk' => ⟨fresh_of_nodup_map (·.name) _ k new' hN' k' hk', fresh_of_nodup_map (·.pk) _ k new' hP' k' hk'⟩
+      obtain ⟨s1, e1, e2⟩ := (group_close g s { s with keys := s.keys ++ [k] } hk hc).mpr
+        ⟨hb g (List.mem_cons_self ..), k, hk1, hfr, rfl⟩
+      have hf1 := found_of_parseToks_group hk hc.1 e1
+      have hN2 := (nodup_snoc_map (·.name) s.keys k).mpr ⟨hN, fun k' hk' => (hfr k' hk').1⟩
+      have hP2 := (nodup_snoc_map (·.pk) s.keys k).mpr ⟨hP, fun k' hk' => (hfr k' hk').2⟩
+      have e : s.keys ++ k :: new' = (s.keys ++ [k]) ++ new' := by simp
+      obtain ⟨stf, st', h1, h2, h3, h4⟩ := (ih g' { s with keys := s.keys ++ [k] } (s.keys ++ k :: new') hk' hks'
+        ⟨hc.1, hc.2.1, hc.2.2.1, hc.2.2.2⟩ hN2 hP2).mpr
+        ⟨fun x hx => hb x (List.mem_cons_of_mem _ hx), new', hm', e, hN', hP'⟩
+      refine ⟨stf, st', ?_, h2, h3, h4⟩
+      simp only [runGroups, Option.bind_eq_some_iff]
+      refine ⟨s1, e1, _, ?_, by simpa [Option.bind_eq_some_iff] using h1⟩
+      simp only [stepTok, hf1, if_true]
+      exact e2
+
+theorem filterMap_filter_skip (g : List Tok) :
+    (g.filter (· != .skip)).filterMap Tok.nameV = g.filterMap Tok.nameV ∧
+    (g.filter (· != .skip)).filterMap Tok.pkV = g.filterMap Tok.pkV ∧
+    (g.filter (· != .skip)).filterMap Tok.skV = g.filterMap Tok.skV := by
+  induction g with
+  | nil => exact ⟨rfl, rfl, rfl⟩
+  | cons t g ih =>
+    cases t
+    case skip => exact ih
+    all_goals
+      obtain ⟨h1, h2, h3⟩ := ih
+      refine ⟨?_, ?_, ?_⟩ <;>
+        simp only [List.filter_cons, bne_iff_ne, ne_eq, reduceCtorEq, not_false_eq_true, if_true,
+          List.filterMap_cons, Tok.nameV, Tok.pkV, Tok.skV, h1, h2, h3]
+
+theorem entryOf_filter_skip (g : List Tok) : entryOf (g.filter (· != .skip)) = entryOf g := by
+  obtain ⟨h1, h2, h3⟩ := filterMap_filter_skip g
+  unfold entryOf
+  rw [h1, h2, h3]
+
+theorem parseToks_init_key : stepTok {} .key = some { found := true } := rfl
+
+theorem sectionsOf_some_iff (toks : List Tok) (secs : List (List Tok)) :
+    sectionsOf toks = some secs ↔ Tok.bad ∉ toks ∧ (splitAtKeys toks).1.all (· == .skip) = true ∧
+      secs = (splitAtKeys toks).2.map (·.filter (· != .skip)) := by
+  unfold sectionsOf
+  by_cases hb : Tok.bad ∈ toks
+  · simp [hb]
+  · by_cases ha : (splitAtKeys toks).1.all (· == .skip) = true
+    · simp only [List.contains_eq_mem, hb, decide_false, Bool.false_eq_true, if_false, ha, if_true,
+        Option.some.injEq, not_false_eq_true, true_and]
+      exact eq_comm
+    · simp [hb, ha]
+
+theorem toks_iff_sections (toks : List Tok) (ks : List Key) :
+    (∃ st st', parseToks {} toks = some st ∧ st.found = true ∧ addKey st = some st' ∧ st'.keys = ks) ↔
+      ∃ secs, sectionsOf toks = some secs ∧ secs ≠ [] ∧ secs.mapM entryOf = some ks ∧
+        (ks.map (·.name)).Nodup ∧ (ks.map (·.pk)).Nodup := by
+  have hmap : ∀ gs : List (List Tok), (gs.map (·.filter (· != .skip))).mapM entryOf = gs.mapM entryOf := by
+    intro gs
+    rw [List.mapM_map]
+    congr 1
+    funext g
+    exact entryOf_filter_skip g
+  have hkf := splitAtKeys_keyFree toks
+  have hbad := splitAtKeys_bad toks
+  have hsplit := parseToks_split toks {}
+  have hclean : Clean { found := true } := ⟨rfl, rfl, rfl, rfl⟩
+  constructor
+  · rintro ⟨st, st', h1, h2, h3, h4⟩
+    rw [hsplit, Option.bind_eq_some_iff] at h1
+    obtain ⟨st1, e1, e2⟩ := h1
+    obtain ⟨hall, rfl⟩ := (parseToks_notFound _ {} st1 hkf.1 rfl).mp e1
+    cases hgs : (splitAtKeys toks).2 with
+    | nil =>
+      rw [hgs] at e2
+      simp only [runGroups, Option.some.injEq] at e2
+      rw [← e2] at h2
+      exact absurd h2 (by simp)
+    | cons g gs =>
+      rw [hgs] at e2 hkf hbad
+      simp only [runGroups, parseToks_init_key, Option.bind_some] at e2
+      obtain ⟨hb, new, hm, hks, hN, hP⟩ := (runGroups_clean gs g { found := true } ks
+        (hkf.2 g (List.mem_cons_self ..)) (fun x hx => hkf.2 x (List.mem_cons_of_mem _ hx)) hclean
+        (by simp) (by simp)).mp ⟨st, st', e2, h2, h3, h4⟩
+      simp only [List.nil_append] at hks
+      subst hks
+      refine ⟨_, (sectionsOf_some_iff toks _).mpr ⟨?_, hall, rfl⟩, ?_, ?_, hN, hP⟩
+      · rw [hbad]
+        rintro (h | ⟨x, hx, hbx⟩)
+        · have := List.all_eq_true.mp hall _ h
+          exact absurd this (by decide)
+        · exact hb x hx hbx
+      · rw [hgs]; simp
+      · rw [hmap, hgs]; exact hm
+  · rintro ⟨secs, h1, h2, h3, hN, hP⟩
+    obtain ⟨hb, hall, rfl⟩ := (sectionsOf_some_iff toks secs).mp h1
+    rw [hmap] at h3
+    cases hgs : (splitAtKeys toks).2 with
+    | nil => rw [hgs] at h2; exact absurd rfl h2
+    | cons g gs =>
+      rw [hgs] at h3 hkf hbad
+      obtain ⟨stf, st', e2, e3, e4, e5⟩ := (runGroups_clean gs g { found := true } ks
+        (hkf.2 g (List.mem_cons_self ..)) (fun x hx => hkf.2 x (List.mem_cons_of_mem _ hx)) hclean
+        (by simp) (by simp)).mpr ⟨fun x hx hbx => hb (hbad.mpr (Or.inr ⟨x, hx, hbx⟩)), ks, h3, by simp, hN, hP⟩
+      refine ⟨stf, st', ?_, e3, e4, e5⟩
+      rw [hsplit, (parseToks_notFound _ {} {} hkf.1 rfl).mpr ⟨hall, rfl⟩, hgs]
+      simp only [Option.bind_some, runGroups, parseToks_init_key]
+      exact e2
+
+/-- **the accepted entries are exactly the `[Key]` sections of the text, in order** -/
+theorem parse_iff_sections (t : Str) (ks : List Key) :
+    parse t = some ks ↔
+      ∃ secs, sectionsOf ((lines t).map classify) = some secs ∧ secs ≠ [] ∧ secs.mapM entryOf = some ks ∧
+        (ks.map (·.name)).Nodup ∧ (ks.map (·.pk)).Nodup := by
+  rw [← toks_iff_sections, ← parseLines_eq]
+  constructor
+  · intro h
+    obtain ⟨st, st', h1, h2, h3, h4⟩ := parse_some h
+    exact ⟨st, st', h1, h2, h3, h4⟩
+  · rintro ⟨st, st', h1, h2, h3, rfl⟩
+    exact parse_of h1 h2 h3
+
 /-! ### I. concrete data for non-vacuity examples: the keys of the Rust unit test (`KEYRING_INI`) -/
 
 def alicePk : Str := "D7ZZstGYF6okKKEV2rwoUza/tK3iUa8IMY+l5tuirmzzkEog".toList
